@@ -66,3 +66,63 @@ Definition needs_retry (hooks : option (list hook)) (dl : list Z) (st : Z) (cf :
 (* the WARC recorder asks the same hook whether to drop the captured exchange *)
 Definition discarded (hooks : option (list hook)) (dl : list Z) (st : Z) (cf : bytes) : bool :=
   fst (client_hook hooks dl st cf).
+
+(* ---- hooks as functions of the WHOLE response (added after the sixth round) -------------- *)
+(* A warc.DiscardHook receives the *http.Response itself: status, header map and the body
+   READER.  The recorder (dialer.readResponse) calls the chain on the response it re-parsed from
+   the captured bytes and afterwards digests resp.Body as the hook left it (GetSHA1 ->
+   WARC-Payload-Digest, the key of local dedupe); archive() calls the same chain on the live
+   response and afterwards hands resp.Body to ProcessBody.  So besides its verdict a hook has a
+   second output: what the body reader still yields when it returns.  [B] is the type of that
+   reader state (bytes in the theorems, run-length encoded data in the harness). *)
+Definition header := list (bytes * list bytes).   (* http.Header: key as stored in the map -> values *)
+
+(* Header.Get(k) for an already canonical k: first value stored under exactly that key, else "" *)
+Fixpoint header_get (k : bytes) (h : header) : bytes :=
+  match h with
+  | [] => []
+  | (k', vs) :: r => if bytes_eqb k k' then match vs with v :: _ => v | [] => [] end else header_get k r
+  end.
+
+(* textproto.CanonicalMIMEHeaderKey("cf-mitigated") *)
+Definition cf_key : bytes := bs "Cf-Mitigated".
+
+Record resp (B : Type) := Resp { rs_status : Z; rs_header : header; rs_body : B }.
+Arguments Resp {B}. Arguments rs_status {B}. Arguments rs_header {B}. Arguments rs_body {B}.
+
+Definition set_body {B} (r : resp B) (b : B) : resp B := Resp (rs_status r) (rs_header r) b.
+
+(* verdict, reason, and the body reader as left behind *)
+Definition ghook (B : Type) := resp B -> (bool * reason) * B.
+
+(* the two discarders of the code: neither touches resp.Body; the Cloudflare one reads one header *)
+Definition hook_fn {B} (dl : list Z) (h : hook) : ghook B :=
+  fun r => (run_hook h dl (rs_status r) (header_get cf_key (rs_header r)), rs_body r).
+
+(* Builder.Build() over arbitrary hooks: every hook is handed the SAME *http.Response, i.e. the
+   body in the state the previous hooks left it in *)
+Fixpoint gchain_loop {B} (hooks : list (ghook B)) (r : resp B) : (bool * reason) * B :=
+  match hooks with
+  | [] => ((false, RAllPassed), rs_body r)
+  | h :: rest => let '((d, why), b') := h r in
+                 if d then ((true, why), b') else gchain_loop rest (set_body r b')
+  end.
+
+Definition gchain {B} (hooks : list (ghook B)) : ghook B :=
+  fun r => match hooks with
+           | [] => ((false, REmptyChain), rs_body r)
+           | _ => gchain_loop hooks r
+           end.
+
+(* dialer.readResponse: what GetSHA1(resp.Body) is computed over - nothing when the hook
+   discards the exchange; [hook = None]: client.DiscardHook == nil *)
+Definition recorder_payload {B} (hook : option (ghook B)) (r : resp B) : option B :=
+  match hook with
+  | None => Some (rs_body r)
+  | Some h => let '((d, _), rest) := h r in if d then None else Some rest
+  end.
+
+(* a hook that is NOT allowed: it keeps the response but consumes the first [n] bytes of the body
+   (e.g. to look for a marker in the page) without putting them back *)
+Definition peeking_hook (n : nat) : ghook bytes :=
+  fun r => ((false, RNone), skipn n (rs_body r)).
